@@ -139,6 +139,9 @@ def cases(ctx):
             for op in (("get", "set", "bulkget") if not q else (rnd.choice(["get", "set", "bulkget"]),)):
                 C.append(dict(proto=proto, op=op, oids=[oids[0]], vals=[rnd.choice(vals)], reqid=rnd.choice(REQIDS), nr=0, mr=3, engine=e,
                               ctxname=rnd.choice([b"", b"\0" * 12])))
+    # the same requests with the library's loggers at DEBUG (a configuration, not an input): the datagram may not change
+    for c in rnd.sample(C, 60 if q else 800):
+        C.append(dict(c, debuglog=True))
     return C
 
 
